@@ -265,6 +265,9 @@ type NftablesTable struct {
 	dirtyChains    set.Set[string]
 
 	inSyncWithDataPlane bool
+	// dataplaneStateLoaded is set once we know what the table contains.  Until then we must not
+	// write to it: we'd append to whatever an earlier Felix left behind.
+	dataplaneStateLoaded bool
 
 	// overlayDevices contains the names of tunnel/overlay devices (e.g., vxlan.calico, tunl0)
 	// that should be included in the flowtable device list.
@@ -956,6 +959,7 @@ func (t *NftablesTable) loadDataplaneState() {
 	t.logCxt.Debug("Finished loading nftables state")
 	t.chainToDataplaneHashes = dataplaneHashes
 	t.inSyncWithDataPlane = true
+	t.dataplaneStateLoaded = true
 }
 
 // markChainDirty marks the given chain as dirty, causing it to be re-written on the next Apply.
@@ -1156,7 +1160,13 @@ func (t *NftablesTable) Apply() (rescheduleAfter time.Duration) {
 		}
 		t.onStillAlive()
 
-		if err := t.applyUpdates(); err != nil {
+		var err error
+		if t.dataplaneStateLoaded {
+			err = t.applyUpdates()
+		} else {
+			err = fmt.Errorf("failed to load initial nftables state")
+		}
+		if err != nil {
 			if retries > 0 {
 				if retries < 6 && !t.disabled {
 					// If we hit multiple failures in a row, rebuild the table from scratch on the next
@@ -1253,6 +1263,7 @@ func (t *NftablesTable) queueTableRecreate() {
 	// We already know what the table will contain, so there is nothing to be gained from reading
 	// it back before the retry.
 	t.inSyncWithDataPlane = true
+	t.dataplaneStateLoaded = true
 }
 
 func (t *NftablesTable) applyUpdates() error {
